@@ -195,6 +195,48 @@ func checkC14(c *km.Ctx) {
 	if vt == nil {
 		return
 	}
+	// one record per user: the gate, the lock-out test and the bookkeeping all file the record under the user name
+	// as it was handed in (a gate that looks under a folded name never sees the failures stored under the raw one)
+	{
+		nAcc, bad := 0, ""
+		for _, f := range callsWithNewHelpersFuncs(c, vt, 2) {
+			km.Instrs(f, func(in ssa.Instruction) {
+				var key ssa.Value
+				switch x := in.(type) {
+				case *ssa.Lookup:
+					if mentionsField(x.X, "totpLocalRateLimit") {
+						key = x.Index
+					}
+				case *ssa.MapUpdate:
+					if mentionsField(x.Map, "totpLocalRateLimit") {
+						key = x.Key
+					}
+				case *ssa.Call:
+					if b, ok := x.Common().Value.(*ssa.Builtin); ok && b.Name() == "delete" && mentionsField(x.Common().Args[0], "totpLocalRateLimit") {
+						key = x.Common().Args[1]
+					}
+				}
+				if key == nil {
+					return
+				}
+				nAcc++
+				k := km.Unwrap(key)
+				if o := km.CellOrigin(k); o != nil {
+					k = km.Unwrap(o)
+				}
+				if _, isP := k.(*ssa.Parameter); !isP {
+					bad = "record filed under " + clipS(km.ValStr(key), 80) + " at " + posOf(c, in)
+				}
+			})
+		}
+		if nAcc > 0 {
+			found := sprintf("%d accesses, each keyed by the user-name parameter itself", nAcc)
+			if bad != "" {
+				found = bad
+			}
+			r.Add("R-C14-4", km.FuncName(vt), "one rate-limit record per user name", c.P.Pos(vt.Pos()), "every read and write of the per-user record in the validator uses the user name as received for the key", found, bad == "")
+		}
+	}
 	// the spacing gate may live in validateUserTOTP itself or in a helper it calls
 	gate := findTotpGate(c, vt)
 	if gate == nil {
@@ -691,16 +733,24 @@ func clampBefore(c *km.Ctx, fn *ssa.Function, at ssa.Instruction, owner, field s
 		ok = false
 		seen = append(seen, "= "+km.ValStr(v))
 	}
+	// "between the parse and the construction": on some path from the one to the other (an adjustment made under
+	// a condition does not dominate the construction, but it is still an adjustment)
+	mayPrecede := func(a, b ssa.Instruction) bool {
+		if a.Block() == b.Block() {
+			return km.InstrDominates(a, b)
+		}
+		return km.ReachableBlocks(a.Block(), nil)[b.Block()]
+	}
 	km.Instrs(fn, func(in ssa.Instruction) {
 		switch x := in.(type) {
 		case *ssa.Store:
-			if !km.InstrDominates(x, at) || (parse != nil && !km.InstrDominates(parse, x)) {
+			if !mayPrecede(x, at) || (parse != nil && !mayPrecede(parse, x)) {
 				return
 			}
 			judge(x)
 		case ssa.CallInstruction:
 			// a method or helper called between the parse and the construction that adjusts the limits
-			if !km.InstrDominates(x, at) || (parse != nil && !km.InstrDominates(parse, x)) || x == parse {
+			if !mayPrecede(x, at) || (parse != nil && !mayPrecede(parse, x)) || x == parse {
 				return
 			}
 			g := km.StaticCallee(x.Common())
